@@ -1,3 +1,345 @@
 import ScryerModel.Model.Format
+import Mathlib.Tactic.Ring
+import Mathlib.Tactic.Linarith
+/-! Lemmas for C36 (format_//2): digit strings, the decimal point, groups of three, glue. -/
 namespace Scryer.Format
+open Scryer
+
+/-! ## reading digit strings back (specification side) -/
+
+/-- value of a digit character (`0-9`, `a-z`, `A-Z`). -/
+def digitVal (c : Char) : Nat :=
+  if '0' ≤ c ∧ c ≤ '9' then c.toNat - 48
+  else if 'a' ≤ c ∧ c ≤ 'z' then c.toNat - 87
+  else if 'A' ≤ c ∧ c ≤ 'Z' then c.toNat - 55
+  else 0
+
+/-- positional value of a digit string, most significant digit first (Horner). -/
+def horner (r : Nat) (cs : List Char) : Nat := cs.foldl (fun acc c => acc * r + digitVal c) 0
+
+/-- value of a little-endian digit list. -/
+def ofLE (r : Nat) : List Nat → Nat
+  | [] => 0
+  | d :: ds => d + r * ofLE r ds
+
+theorem horner_snoc (r : Nat) (cs : List Char) (c : Char) :
+    horner r (cs ++ [c]) = horner r cs * r + digitVal c := by
+  simp [horner, List.foldl_append]
+
+theorem horner_nil (r : Nat) : horner r [] = 0 := rfl
+
+theorem foldl_horner_start (r : Nat) (cs : List Char) (a : Nat) :
+    cs.foldl (fun acc c => acc * r + digitVal c) a = a * r ^ cs.length + horner r cs := by
+  induction cs generalizing a with
+  | nil => simp [horner]
+  | cons c cs ih =>
+    simp only [List.foldl_cons, List.length_cons, horner]
+    rw [ih, ih (0 * r + digitVal c)]
+    ring
+
+theorem horner_append (r : Nat) (as bs : List Char) :
+    horner r (as ++ bs) = horner r as * r ^ bs.length + horner r bs := by
+  unfold horner
+  rw [List.foldl_append, foldl_horner_start]
+  rfl
+
+theorem horner_replicate_zero (r k : Nat) : horner r (List.replicate k '0') = 0 := by
+  induction k with
+  | zero => rfl
+  | succ k ih =>
+    rw [List.replicate_succ', horner_snoc, ih]
+    have : digitVal '0' = 0 := by decide
+    simp [this]
+
+theorem digitVal_digitChar (up : Bool) : ∀ d, d < 36 → digitVal (digitChar up d) = d := by
+  cases up <;> decide
+
+theorem digitChar_ne_minus (up : Bool) : ∀ d, d < 36 → digitChar up d ≠ '-' := by
+  cases up <;> decide
+
+theorem digitChar_ne_dot (up : Bool) : ∀ d, d < 36 → digitChar up d ≠ '.' := by
+  cases up <;> decide
+
+theorem digitChar_upper : ∀ d, d < 36 → digitChar true d = (digitChar false d).toUpper := by
+  decide
+
+theorem digitChar_zero_iff (up : Bool) : ∀ d, d < 36 → (digitChar up d = '0' ↔ d = 0) := by
+  cases up <;> decide
+
+/-! ## `digitsLE` -/
+
+theorem digitsLE_zero (r : Nat) : digitsLE r 0 = [] := by
+  rw [digitsLE]; simp
+
+theorem digitsLE_pos {r n : Nat} (hr : 2 ≤ r) (hn : n ≠ 0) :
+    digitsLE r n = n % r :: digitsLE r (n / r) := by
+  rw [digitsLE]
+  have : ¬ (n = 0 ∨ r < 2) := by omega
+  simp [this]
+
+theorem digitsLE_ne_nil {r n : Nat} (hr : 2 ≤ r) (hn : n ≠ 0) : digitsLE r n ≠ [] := by
+  rw [digitsLE_pos hr hn]; simp
+
+theorem ofLE_digitsLE {r : Nat} (hr : 2 ≤ r) (n : Nat) : ofLE r (digitsLE r n) = n := by
+  induction n using Nat.strong_induction_on with
+  | _ n ih =>
+    by_cases hn : n = 0
+    · subst hn; simp [digitsLE_zero, ofLE]
+    · rw [digitsLE_pos hr hn, ofLE, ih (n / r) (Nat.div_lt_self (by omega) (by omega))]
+      exact Nat.mod_add_div n r
+
+theorem digitsLE_lt {r : Nat} (hr : 2 ≤ r) (n : Nat) : ∀ d ∈ digitsLE r n, d < r := by
+  induction n using Nat.strong_induction_on with
+  | _ n ih =>
+    by_cases hn : n = 0
+    · subst hn; simp [digitsLE_zero]
+    · rw [digitsLE_pos hr hn]
+      intro d hd
+      rcases List.mem_cons.mp hd with h | h
+      · subst h; exact Nat.mod_lt _ (by omega)
+      · exact ih (n / r) (Nat.div_lt_self (by omega) (by omega)) d h
+
+/-- the most significant digit is not zero. -/
+theorem digitsLE_getLast_ne_zero {r : Nat} (hr : 2 ≤ r) (n : Nat) :
+    ∀ d, (digitsLE r n).getLast? = some d → d ≠ 0 := by
+  induction n using Nat.strong_induction_on with
+  | _ n ih =>
+    by_cases hn : n = 0
+    · subst hn; simp [digitsLE_zero]
+    · rw [digitsLE_pos hr hn]
+      intro d hd
+      by_cases hq : n / r = 0
+      · rw [hq, digitsLE_zero] at hd
+        simp at hd
+        have : n < r := by
+          rcases Nat.div_eq_zero_iff.mp hq with h | h <;> omega
+        rw [Nat.mod_eq_of_lt this] at hd
+        omega
+      · have hne := digitsLE_ne_nil hr hq
+        rw [List.getLast?_cons_of_ne_nil hne] at hd
+        exact ih (n / r) (Nat.div_lt_self (by omega) (by omega)) d hd
+
+theorem drop_digitsLE {r : Nat} (hr : 2 ≤ r) (k : Nat) :
+    ∀ m, (digitsLE r m).drop k = digitsLE r (m / r ^ k) := by
+  induction k with
+  | zero => intro m; simp
+  | succ k ih =>
+    intro m
+    by_cases hm : m = 0
+    · subst hm; simp [digitsLE_zero]
+    · rw [digitsLE_pos hr hm, List.drop_succ_cons, ih, Nat.div_div_eq_div_mul, pow_succ, Nat.mul_comm]
+
+theorem ofLE_take_digitsLE {r : Nat} (hr : 2 ≤ r) (k : Nat) :
+    ∀ m, ofLE r ((digitsLE r m).take k) = m % r ^ k := by
+  induction k with
+  | zero => intro m; simp [ofLE, Nat.mod_one]
+  | succ k ih =>
+    intro m
+    by_cases hm : m = 0
+    · subst hm; simp [digitsLE_zero, ofLE]
+    · rw [digitsLE_pos hr hm, List.take_succ_cons, ofLE, ih, pow_succ, Nat.mul_comm (r ^ k) r,
+        Nat.mod_mul]
+
+/-- big-endian characters of a little-endian digit list. -/
+def beChars (up : Bool) (ds : List Nat) : List Char := (ds.map (digitChar up)).reverse
+
+theorem horner_beChars (up : Bool) {r : Nat} (hr : r ≤ 36) :
+    ∀ ds : List Nat, (∀ d ∈ ds, d < r) → horner r (beChars up ds) = ofLE r ds := by
+  intro ds
+  induction ds with
+  | nil => intro _; rfl
+  | cons d ds ih =>
+    intro h
+    have hd : d < 36 := by have := h d (by simp); omega
+    simp only [beChars, List.map_cons, List.reverse_cons] at *
+    rw [horner_snoc, ih (fun x hx => h x (by simp [hx])), digitVal_digitChar up d hd, ofLE]
+    ring
+
+theorem beChars_length (up : Bool) (ds : List Nat) : (beChars up ds).length = ds.length := by
+  simp [beChars]
+
+/-! ## `natChars` / `intChars` -/
+
+theorem natChars_pos {n : Nat} (hn : n ≠ 0) : natChars n = beChars false (digitsLE 10 n) := by
+  simp [natChars, hn, beChars]
+
+theorem horner_natChars (n : Nat) : horner 10 (natChars n) = n := by
+  by_cases hn : n = 0
+  · subst hn; decide
+  · rw [natChars_pos hn, horner_beChars false (by omega) _ (digitsLE_lt (by omega) n),
+      ofLE_digitsLE (by omega)]
+
+theorem natChars_ne_nil (n : Nat) : natChars n ≠ [] := by
+  by_cases hn : n = 0
+  · subst hn; decide
+  · rw [natChars_pos hn, beChars]
+    simp [digitsLE_ne_nil (r := 10) (by omega) hn]
+
+theorem mem_beChars_digitsLE {up : Bool} {r n : Nat} (hr : 2 ≤ r) (hr' : r ≤ 36) {c : Char}
+    (h : c ∈ beChars up (digitsLE r n)) : ∃ d, d < r ∧ d < 36 ∧ c = digitChar up d := by
+  simp only [beChars, List.mem_reverse, List.mem_map] at h
+  obtain ⟨d, hd, rfl⟩ := h
+  have := digitsLE_lt hr n d hd
+  exact ⟨d, this, by omega, rfl⟩
+
+theorem natChars_digits (n : Nat) : ∀ c ∈ natChars n, c ≠ '-' ∧ c ≠ '.' ∧ digitVal c < 10 := by
+  intro c hc
+  by_cases hn : n = 0
+  · subst hn
+    have : c = '0' := by simpa [natChars] using hc
+    subst this; decide
+  · rw [natChars_pos hn] at hc
+    obtain ⟨d, hd, hd36, rfl⟩ := mem_beChars_digitsLE (by omega) (by omega) hc
+    exact ⟨digitChar_ne_minus _ d hd36, digitChar_ne_dot _ d hd36, by rw [digitVal_digitChar _ d hd36]; exact hd⟩
+
+/-! ## the decimal point -/
+
+theorem natChars_take_drop {m k : Nat} (hk : k < (natChars m).length) :
+    (natChars m).take ((natChars m).length - k) = natChars (m / 10 ^ k) ∧
+    ((natChars m).drop ((natChars m).length - k)).length = k ∧
+    horner 10 ((natChars m).drop ((natChars m).length - k)) = m % 10 ^ k := by
+  by_cases hk0 : k = 0
+  · subst hk0; simp [horner_nil, Nat.mod_one]
+  have hm : m ≠ 0 := by
+    intro h; subst h
+    have : (natChars 0).length = 1 := by decide
+    omega
+  have hlen : (natChars m).length = (digitsLE 10 m).length := by
+    rw [natChars_pos hm, beChars_length]
+  have hk' : k < (digitsLE 10 m).length := by omega
+  have hdrop : (digitsLE 10 m).drop k = digitsLE 10 (m / 10 ^ k) := drop_digitsLE (by omega) k m
+  have hq : m / 10 ^ k ≠ 0 := by
+    intro h
+    rw [h, digitsLE_zero] at hdrop
+    have := congrArg List.length hdrop
+    simp at this
+    omega
+  refine ⟨?_, ?_, ?_⟩
+  · rw [natChars_pos hq, ← hdrop, hlen, natChars_pos hm, beChars, beChars, ← List.map_reverse,
+      ← List.map_reverse, ← List.map_take, List.reverse_drop]
+  · rw [List.length_drop]; omega
+  · rw [hlen, natChars_pos hm, beChars, ← List.map_reverse, ← List.map_drop, ← List.reverse_take,
+      List.map_reverse]
+    have := horner_beChars false (r := 10) (by omega) ((digitsLE 10 m).take k)
+      (fun d hd => digitsLE_lt (by omega) m d (List.mem_of_mem_take hd))
+    rw [beChars] at this
+    rw [this, ofLE_take_digitsLE (by omega)]
+
+/-! ## groups of three -/
+
+theorem filter_ne_self {sep : Char} {l : List Char} (hs : sep ∉ l) : l.filter (· != sep) = l := by
+  rw [List.filter_eq_self]
+  intro a ha
+  simp only [bne_iff_ne, ne_eq]
+  intro h; subst h; exact hs ha
+
+theorem groups3_filter (sep : Char) (l : List Char) (hs : sep ∉ l) :
+    (groups3 sep l).filter (· != sep) = l := by
+  fun_induction groups3 sep l with
+  | case1 a b c d t ih =>
+    simp only [List.mem_cons, not_or] at hs
+    obtain ⟨ha, hb, hc, hd, ht⟩ := hs
+    have hrec := ih (by simp only [List.mem_cons, not_or]; exact ⟨hd, ht⟩)
+    have e : ∀ x : Char, sep ≠ x → (x != sep) = true := by
+      intro x hx; simp only [bne_iff_ne, ne_eq]; exact fun h => hx h.symm
+    simp only [List.filter_cons, e a ha, e b hb, e c hc, ↓reduceIte, bne_self_eq_false, Bool.false_eq_true]
+    rw [hrec]
+  | case2 ls h => exact filter_ne_self hs
+
+/-! ## glue -/
+
+theorem glueSizes_length (k : Nat) (space : Int) : (glueSizes k space).length = k := by
+  unfold glueSizes
+  by_cases hk : k = 0
+  · simp [hk]
+  · simp only [hk, ↓reduceIte]
+    split
+    · simp
+    · split
+      · simp
+      · simp; omega
+
+theorem sum_replicate (k d : Nat) : (List.replicate k d).sum = k * d := by
+  induction k with
+  | zero => simp
+  | succ k ih => simp [List.replicate_succ, ih]; ring
+
+theorem glueSizes_sum {k : Nat} (hk : k ≠ 0) (space : Int) :
+    (glueSizes k space).sum = space.toNat := by
+  unfold glueSizes
+  simp only [hk, ↓reduceIte]
+  by_cases h : space ≤ 0
+  · simp only [h, ↓reduceIte, sum_replicate]; omega
+  · simp only [h, ↓reduceIte]
+    have hle : space.toNat / k * k ≤ space.toNat := Nat.div_mul_le_self _ _
+    generalize space.toNat = s at *
+    generalize s / k = q at *
+    have e : (k - 1) * q + q = q * k := by
+      obtain ⟨j, rfl⟩ := Nat.exists_eq_succ_of_ne_zero hk
+      simp only [Nat.succ_eq_add_one, Nat.add_sub_cancel]
+      ring
+    by_cases h0 : s - q * k = 0
+    · simp only [h0, ↓reduceIte, sum_replicate]
+      rw [Nat.mul_comm]; omega
+    · simp only [h0, ↓reduceIte, List.sum_append, sum_replicate, List.sum_cons, List.sum_nil,
+        Nat.add_zero]
+      omega
+
+theorem fill_length : ∀ (segs : List Seg) (ns : List Nat), ns.length = countPads segs →
+    (fill segs ns).length = textWidth segs + ns.sum := by
+  intro segs
+  induction segs with
+  | nil => intro ns h; simp [countPads] at h; subst h; simp [fill, textWidth]
+  | cons s segs ih =>
+    intro ns h
+    cases s with
+    | txt cs =>
+      simp only [fill, textWidth, List.length_append]
+      rw [ih ns (by simpa [countPads] using h)]
+      omega
+    | pad c =>
+      cases ns with
+      | nil => simp [countPads] at h
+      | cons n ns =>
+        simp only [fill, textWidth, List.length_append, List.length_replicate, List.sum_cons]
+        rw [ih ns (by simpa [countPads] using h)]
+        omega
+
+/-- all the text of a cell, in order. -/
+def allText : List Seg → List Char
+  | [] => []
+  | .txt cs :: r => cs ++ allText r
+  | .pad _ :: r => allText r
+
+theorem allText_length (segs : List Seg) : (allText segs).length = textWidth segs := by
+  induction segs with
+  | nil => rfl
+  | cons s segs ih => cases s <;> simp [allText, textWidth, ih]
+
+theorem fill_sublist : ∀ (segs : List Seg) (ns : List Nat), (allText segs).Sublist (fill segs ns) := by
+  intro segs
+  induction segs with
+  | nil => intro ns; simp [allText, fill]
+  | cons s segs ih =>
+    intro ns
+    cases s with
+    | txt cs => simp only [allText, fill]; exact List.Sublist.append (List.Sublist.refl _) (ih ns)
+    | pad c =>
+      cases ns with
+      | nil => simp only [allText, fill]; exact ih []
+      | cons n ns =>
+        simp only [allText, fill]
+        exact (ih ns).trans (List.sublist_append_right _ _)
+
+theorem fill_no_pads : ∀ (segs : List Seg) (ns : List Nat), countPads segs = 0 →
+    fill segs ns = allText segs := by
+  intro segs
+  induction segs with
+  | nil => intro ns _; rfl
+  | cons s segs ih =>
+    intro ns h
+    cases s with
+    | txt cs => simp only [fill, allText]; rw [ih ns (by simpa [countPads] using h)]
+    | pad c => simp [countPads] at h
+
 end Scryer.Format
